@@ -30,6 +30,7 @@ type cliReq struct {
 	ref    *core.N
 	extra  *core.N // a second tree in the same input file (the command handles them all)
 	toFile bool    // -o <file> instead of stdout
+	stdin  bool    // the trees come on stdin (no -i)
 }
 
 func parseNewick(s string) (*tree.Tree, error) {
@@ -86,7 +87,13 @@ func runCLI(c *core.Ctx, r *cliReq) {
 		befores = append(befores, before.Dump())
 		input.WriteString(nw + "\n")
 	}
-	argv := []string{"prune", "-i", c.TmpFile(input.String())}
+	argv := []string{"prune"}
+	stdin := ""
+	if r.stdin {
+		stdin = input.String()
+	} else {
+		argv = append(argv, "-i", c.TmpFile(input.String()))
+	}
 	hooks := make([]string, len(refs))
 	for i := range hooks {
 		hooks[i] = "-"
@@ -135,7 +142,7 @@ func runCLI(c *core.Ctx, r *cliReq) {
 		argv = append(argv, "-o", outfile)
 	}
 	argv = append(argv, r.args...)
-	res := c.RunCLI("", 30*time.Second, argv...)
+	res := c.RunCLI(stdin, 30*time.Second, argv...)
 	emit := func(i int, rest ...string) {
 		c.Emit("C06.cli", append(r.head(befores[i]), rest...)...)
 	}
@@ -182,6 +189,27 @@ func runCLI(c *core.Ctx, r *cliReq) {
 	if len(lines) > len(refs) || (failure == "" && len(lines) != len(refs)) {
 		all("unreadable:"+core.Escape(fmt.Sprintf("%d trees written for %d read", len(lines), len(refs))), "")
 		return
+	}
+	// the whole run: how many trees were written, did the command fail (model: pruneAll)
+	{
+		var all strings.Builder
+		for _, b := range befores {
+			all.WriteString(b)
+			all.WriteByte('|')
+		}
+		h := r.head(all.String())
+		exit := "0"
+		if failure != "" {
+			exit = "1"
+		}
+		mode := "file"
+		if r.stdin {
+			mode = "stdin"
+		}
+		if r.toFile {
+			mode += "+o"
+		}
+		c.Emit("C06.run", append(h, exit, fmt.Sprint(len(lines)), mode)...)
 	}
 	for i := range refs {
 		if i >= len(lines) {
@@ -257,6 +285,11 @@ func cliCase(c *core.Ctx) {
 	o.InnerNames = 0
 	o.MinTips = 5
 	ref, _ := g.Tree(o)
+	if g.Chance(0.08) { // the root itself is a tip: written `(subtree)rt;` (331c4ae), removable since 0cfc52b
+		ref.E = core.NewE()
+		ref.E.Len = 1.5
+		ref = &core.N{Name: "rt", Kids: []*core.N{ref}}
+	}
 	core.NumberEdges(ref)
 	r := &cliReq{ref: ref, seed: 1 + g.Intn(1000)}
 	tips := ref.TipNames()
@@ -375,5 +408,66 @@ func cliCase(c *core.Ctx) {
 		r.extra = compTree(g, names2)
 	}
 	r.toFile = g.Chance(0.3)
+	r.stdin = g.Chance(0.25)
 	runCLI(c, r)
+}
+
+// tipFileCase: what `-f` reads from a file (separators, line ends, empty lines, no trimming),
+// observed through a star tree whose tips are the candidate names.
+func tipFileCase(c *core.Ctx) {
+	g := c.G
+	pool := []string{"a", "b", "c", "d", "e", "f", "g", "h", "i"}
+	junk := []string{"zz", " a", "b ", "", "A", "ab"}
+	var b strings.Builder
+	n := g.Intn(6)
+	picked := 0
+	for i := 0; i < n; i++ {
+		if g.Chance(0.25) {
+			b.WriteString(junk[g.Intn(len(junk))])
+		} else if picked < 5 {
+			b.WriteString(pool[g.Intn(len(pool))])
+			picked++
+		}
+		if i < n-1 || g.Chance(0.7) {
+			switch g.Intn(5) {
+			case 0:
+				b.WriteString("\r\n")
+			case 1:
+				b.WriteString(",")
+			case 2:
+				b.WriteString("\n\n")
+			default:
+				b.WriteString("\n")
+			}
+		}
+	}
+	if g.Chance(0.1) {
+		b.WriteString("\r")
+	}
+	doTipFile(c, b.String(), pool)
+}
+
+func doTipFile(c *core.Ctx, content string, pool []string) {
+	nw := "(" + strings.Join(pool, ",") + ");"
+	res := c.RunCLI("", 30*time.Second, "prune", "-i", c.TmpFile(nw+"\n"), "-f", c.TmpFile(content))
+	if res.Exit != 0 || res.Timeout {
+		c.Emit("C06.tipfile", core.Escape(content), core.StrList(pool), "err", "")
+		return
+	}
+	ta, err := parseNewick(strings.TrimSpace(res.Stdout))
+	if err != nil {
+		c.Emit("C06.tipfile", core.Escape(content), core.StrList(pool), "unreadable", "")
+		return
+	}
+	left := map[string]bool{}
+	for _, tp := range ta.Tips() {
+		left[tp.Name()] = true
+	}
+	var removed []string
+	for _, s := range pool {
+		if !left[s] {
+			removed = append(removed, s)
+		}
+	}
+	c.Emit("C06.tipfile", core.Escape(content), core.StrList(pool), "ok", core.StrList(removed))
 }
